@@ -113,7 +113,7 @@ fn gen(rng: &mut Rng, kind: usize, case: u64) -> Case {
         if k == 0 {
             h.push(Ev::None);
         } else if k == 1 && rng.chance(0.6) {
-            h.push(Ev::Err(1 + rng.below(2) as u8));
+            h.push(Ev::Err(rng.err_code()));
         } else {
             let v = match signal {
                 0 => { x += rng.uniform(-1.0, 1.0) * amp * 0.1; x }
@@ -152,6 +152,10 @@ fn probe_unit(u: Unit) -> (i8, i8) {
     (99, 99)
 }
 fn run_real(c: &Case, shift: i64) -> Vec<O> {
+    run_observed(c, shift, None)
+}
+/// `skip[i]`: do not call get() after event i (placeholder O::None there, never compared)
+fn run_observed(c: &Case, shift: i64, skip: Option<&[bool]>) -> Vec<O> {
     let src = Src::<Quantity>::new();
     let mut s = match c.kind {
         0 => S::I(IntegralStream::new(src.dynref())),
@@ -168,7 +172,12 @@ fn run_real(c: &Case, shift: i64) -> Vec<O> {
             Ev::None => src.none(),
             Ev::Err(x) => src.err(*x),
         }
+        let skip_this = skip.map(|s| s[outs.len()]).unwrap_or(false);
         let r = catch(|| {
+            if skip_this {
+                match &mut s { S::I(x) => { let _ = x.update(); } S::D(x) => { let _ = x.update(); } S::A(x) => { let _ = x.update(); } S::V(x) => { let _ = x.update(); } S::P(x) => { let _ = x.update(); } }
+                return O::None;
+            }
             let fq = |o: Out<Quantity>| match o { Err(_) => O::Err, Ok(None) => O::None, Ok(Some(d)) => O::Q(d.time.0, d.value.value, probe_unit(d.value.unit)) };
             let fs = |o: Out<State>| match o { Err(_) => O::Err, Ok(None) => O::None, Ok(Some(d)) => O::St(d.time.0, [d.value.position, d.value.velocity, d.value.acceleration]) };
             match &mut s {
@@ -289,6 +298,17 @@ fn main() {
                 }
             }
             let _ = first_present_hist;
+            // the value does not depend on whether get() was called after earlier updates
+            let skip: Vec<bool> = (0..c.h.len()).map(|_| rng.chance(0.6)).collect();
+            let sp = run_observed(&c, 0, Some(&skip));
+            rep.eval();
+            rep.tally("sparse_observation_runs");
+            for i in 0..outs.len().min(sp.len()) {
+                if !skip[i] && sp[i] != outs[i] && !(matches!((&sp[i], &outs[i]), (O::Q(_, a, _), O::Q(_, b, _)) if a.is_nan() && b.is_nan())) {
+                    rep.violation(&format!("C10/get-schedule-affects-output/{}", name), sub, case, format!("event {}: {:?} when read after every update, {:?} when earlier reads are skipped; case={:?}", i, outs[i], sp[i], c));
+                    break;
+                }
+            }
             // shift invariance (bit-exact)
             let shift = match rng.below(3) { 0 => rng.range_i64(-1_000_000, 1_000_000), 1 => (1i64 << 61) + rng.range_i64(0, 1000), _ => -(1i64 << 61) - rng.range_i64(0, 1000) };
             let sh = run_real(&c, shift);
